@@ -200,3 +200,77 @@ def declare_c25(E):
                    loops={0: dict(inv=["ghost('delivered') + s == old(ghost('delivered')) + old(s)", "len(s) < 2**31"],
                                   variant="len(s)", havoc_ghosts=["delivered"], vars={"sent": "int"})},
                    raises=dict(RA), returns="none")
+
+
+# ---------------------------------------------------------------------------------------------------------- C22
+def declare_c22(E):
+    """EOF and CLOSE at most once; no data after either; CLOSE answered once"""
+    from pyvc import specfuns
+    from pyvc.values import VBool
+    from contracts import specs   # registers asbytes_spec etc.
+
+    @specfuns.register("any_lock_held")
+    def _any_lock_held(I, args, fr):
+        return VBool(any(v > 0 for v in I.st.held.values()))
+    declare_c19(E)
+    T = "paramiko.transport.Transport."
+    E.declare_class("paramiko.channel.Channel", {"_pipe": "opt[opaque:Pipe]", "event": "opaque:Event", "status_event": "opaque:Event"})
+    E.declare_ghost(data_sent_with_lock_held="bool", unlinked="int", sent_msgs="int", sent_first="bytes", sent_last="bytes")
+    E.contract(T + "_send_user_message", params={"data": "obj:Message"}, returns="none",
+               ghost={"user_sent": "data.packet.getvalue()", "user_sent_count": "ghost('user_sent_count') + 1",
+                      "data_sent_with_lock_held": "any_lock_held()",
+                      "sent_first": "data.packet.getvalue() if ghost('sent_msgs') == 0 else ghost('sent_first')",
+                      "sent_last": "data.packet.getvalue()", "sent_msgs": "ghost('sent_msgs') + 1"},
+               raises={"EOFError": "True", "OSError": "True", "SSHException": "True"}, modifies=[])
+    E.contract(T + "_unlink_channel", params={"chanid": "int"}, returns="none", ghost={"unlinked": "ghost('unlinked') + 1"}, modifies=[])
+    E.contract("paramiko.buffered_pipe.BufferedPipe.close", returns="none", modifies=[])
+    E.contract("Pipe.set_forever", argnames=["self"], returns="none")
+    E.contract("Pipe.close", argnames=["self"], returns="none")
+    EOF_MSG = "b'\\x60' + pack32(self.remote_chanid)"
+    CLOSE_MSG = "b'\\x61' + pack32(self.remote_chanid)"
+    E.contract(C + "_set_closed", held=["self.lock"], requires={"lock_held": "held(self.lock)"},
+               ensures={"closed": "self.closed"}, returns="none", raises={},
+               modifies=["self.closed"])
+    E.contract(C + "_send_eof", held=["self.lock"],
+               requires={"lock_held": "held(self.lock)"},
+               ensures={
+                   "eof_message_created_exactly_when_none_was_before": "isnone(result) == old(self.eof_sent)",
+                   "eof_marked_sent": "self.eof_sent",
+                   "it_is_CHANNEL_EOF_for_the_peers_channel_id":
+                       "(result.packet.getvalue() == %s) if notnone(result) else True" % EOF_MSG,
+               },
+               returns="opt[obj:Message]", raises={}, modifies=["self.eof_sent"])
+    E.contract(C + "_close_internal", held=["self.lock"],
+               requires={"lock_held": "held(self.lock)"},
+               ensures={
+                   "close_created_exactly_when_active_and_not_yet_closed":
+                       "isnone(result[1]) == (not old(self.active) or old(self.closed))",
+                   "it_is_CHANNEL_CLOSE_for_the_peers_channel_id":
+                       "(result[1].packet.getvalue() == %s) if notnone(result[1]) else True" % CLOSE_MSG,
+                   "eof_precedes_it_unless_already_sent":
+                       "isnone(result[0]) == (isnone(result[1]) or old(self.eof_sent))",
+                   "channel_marked_closed": "implies(notnone(result[1]), self.closed and self.eof_sent)",
+                   "nothing_changes_when_nothing_is_created":
+                       "implies(isnone(result[1]), self.closed == old(self.closed) and self.eof_sent == old(self.eof_sent))",
+               },
+               returns="tuple[opt[obj:Message],opt[obj:Message]]", raises={}, modifies=["self.closed", "self.eof_sent"])
+    # no window is granted once EOF or CLOSE has been sent (evaluated with the lock held, at the point of the debit)
+    c = E.contracts[C + "_wait_for_send_window"]
+    c["ensures"]["nothing_granted_after_EOF_or_CLOSE"] = "implies(result > 0, not self.closed and not self.eof_sent)"
+    c = E.contracts[C + "_send"]
+    c["ensures"]["data_message_built_only_while_neither_EOF_nor_CLOSE_was_sent"] = \
+        "implies(result > 0, not self.closed and not self.eof_sent)"        # field values as of the release of the lock
+    # the hand-over to the transport happens after the channel lock is released (deliberately, see the comment in _send):
+    # between the two another thread can send EOF / CLOSE, so this obligation does not hold on the pinned tree (known finding)
+    c["ensures"]["data_message_handed_to_the_transport_before_the_lock_is_released"] = \
+        "implies(result > 0, ghost('data_sent_with_lock_held'))"
+    E.contract(C + "_handle_close", params={"m": "obj:Message"},
+               ensures={
+                   "peers_CLOSE_answered_with_ours_unless_already_sent":
+                       "ghost('sent_msgs') - old(ghost('sent_msgs')) == ((0 if (not ghost('sync_active') or ghost('sync_closed')) else"
+                       " (1 if ghost('sync_eof_sent') else 2)))",
+                   "last_message_is_our_CLOSE":
+                       "implies(ghost('sent_msgs') > old(ghost('sent_msgs')), ghost('sent_last') == %s)" % CLOSE_MSG,
+                   "channel_released": "ghost('unlinked') == old(ghost('unlinked')) + 1",
+               },
+               returns="none", raises={"EOFError": "True", "OSError": "True", "SSHException": "True"})
